@@ -961,6 +961,11 @@ restore_ownership (void *data)
   
   _dbus_list_insert_before_link (&d->service->owners, link, d->owner_link);
 
+  /* the list of owners holds a reference to each owner, which
+   * bus_service_unlink_owner() released
+   */
+  bus_owner_ref (d->owner);
+
   /* Note that removing then restoring this changes the order in which
    * ServiceDeleted messages are sent on destruction of the
    * connection.  This should be OK as the only guarantee there is
